@@ -253,6 +253,8 @@ func main() {
 		cmdDump(os.Args[2:])
 	case "plugin":
 		cmdPlugin(os.Args[2:])
+	case "regen":
+		cmdRegen(os.Args[2:])
 	default:
 		die("unknown subcommand %s", os.Args[1])
 	}
